@@ -12,6 +12,12 @@ NOT_APPLICABLE = {
 }
 
 CLAIMS = {
+    "C15": {
+        "text": "Decides writer/reader agreement, not the round-trip behaviour: for all 37 ascii_dump/ascii_load pairs the linearised writer and reader agree on the order of keyword tokens (literals concatenated and split as the stream would, ?: / switch / if arms as alternatives), of sub-object dumps/loads (by resolved class) and of directly streamed members (R15.1); every literal the reader insists on can be produced by the writer (R15.2); in the five Status classes each keyword's test_X in the writer pairs with set_X and reset_X of the same flag in the reader and both polarities are restored (R15.3); every data member of 13 composite classes is named by both the dump and the load or is a reasoned exception (R15.4). Necessary for 'loading a dump yields the same value and the same text'. Number I/O of coefficients and special float values, loop extents and the semantic equality of the loaded object are NOT decided.",
+        "design_ref": "DESIGN.md §3 C15",
+        "note": "control structure is compared through linear order of first occurrences only; template classes are judged on one resolved instantiation (drivers/domains.cc) or, failing that, on the pattern",
+        "technique": "sibling-agreement (writer vs reader) over type-resolved ASTs, field-coverage rule, with instance floors",
+    },
     "C04": {
         "text": "Decides the canonical-form protocol of BD shapes and octagons on the rational instantiation, not the closure arithmetic: (R4.2) flag typestate over every CFG path of every member — no path leaves `closed` / `reduced` / `strongly closed` claimed after the matrix it describes was written (writes alias-tracked through references, iterators and proxy rows; private writers hand the obligation to their callers; each closure-preserving write is justified by a stated lemma per write event, never per function); (R4.1) 80 frozen (function, operand) pairs still close the operand before any read of its matrix contents; (R4.3) the element helpers reset closure when they change an element. Necessary for 'equal point sets compare equal whatever their history' and for exact predicates on non-closed / reduced operands. Exactness of the closure, reduction and join algorithms themselves and the optimality claims are NOT decided; three refine() call sites are listed as UNDECIDED in the evidence.",
         "design_ref": "DESIGN.md §3 C04",
